@@ -112,7 +112,10 @@ def campaign(tier, seed=SEED, log=print):
                     crashes.append(dict(file=fs[-1] if fs else "", rc=crash[0], stderr=crash[1][-1500:], records=n))
                 files += fs
             if variant == "plain":
+                feats = set(gen.cfg_of(fx)["features"])
                 for kind, fn in (("replica", explore.replica_walk), ("copy", explore.copy_walk)):
+                    if kind == "replica" and not {"TRANSITION_HISTORY", "SERIALIZATION"} <= feats:
+                        continue
                     f = os.path.join(cdir, "%s-%s-%s.ndjson" % (fxname, variant, kind))
                     s = (seed * 31337 + sum(map(ord, fxname + kind))) & 0x7fffffff
                     n, crash = fn(fx, exe, f, s, max(150, nrec // 6))
